@@ -164,6 +164,8 @@ class Spec(PropSpec):
         # io_uring mixed in (sync_probability 0: the ring's coin is not in the decision log, none is drawn):
         # data syncs through another descriptor / front-end of the same file, then a crash; random histories
         # with positional writes / reads / fsyncs rerouted through the ring, crash at every prefix
+        # several hosts crashed by one Sim::crash call over a regex host set / by repeated single calls
+        cases += [F.multi_host_crash(rng) for _ in range(40 * k)]
         us = F.uring_fsync_scenarios(rng)
         cases += us
         for b in rng.sample(us, 6 * k):
